@@ -182,9 +182,11 @@ class Trellis34:
                     last = abs((j - start) % 255)
                     out[i] = last
 
-            assert (
-                matches
-            ), f"Trellis data corrupted, index {i} constellation point {constellation_points[i]}"
+            if not matches:
+                # not an assert statement: the refusal must survive python -O
+                raise AssertionError(
+                    f"Trellis data corrupted, index {i} constellation point {constellation_points[i]}"
+                )
 
         return out
 
